@@ -132,6 +132,9 @@ class Mailbox:
         db.execute("UPDATE `mailbox_sides` SET `opened`=?, `mood`=?"
                    " WHERE `mailbox_id`=? AND `side`=?",
                    (False, mood, self._mailbox_id, side))
+        # closing is client activity too: a re-sent close (which re-opens
+        # the mailbox first) must leave the same timestamp as the original
+        self._touch(when)
         db.commit()
 
         # are any sides still open?
